@@ -429,6 +429,15 @@ def oracle_case(tn, rng, n, r1, r2, Y1, Y2):
         lambda: eq('interface[0] (norm=None)', tn.interface(Y1, i=np.array(idx), norm=None)[0], np.array([D1[idx]], dtype=object)),
         lambda: eq('interface[-1] (ltr, norm=None)', tn.interface(Y1, i=np.array(idx), norm=None, ltr=True)[-1],
                    np.array([D1[idx]], dtype=object)),
+        lambda: eq('interface[0] (P, i, norm=None)', tn.interface(Y1, P=[np.array(p, dtype=float) for p in P], i=np.array(idx), norm=None)[0],
+                   np.array([D1[idx] * W[idx]], dtype=object), P),
+        lambda: eq('interface[-1] (P, i, ltr, norm=None)', tn.interface(Y1, P=[np.array(p, dtype=float) for p in P], i=np.array(idx), norm=None, ltr=True)[-1],
+                   np.array([D1[idx] * W[idx]], dtype=object), P),
+        lambda: eq('interface[0] (P, norm=None)', tn.interface(Y1, P=[np.array(p, dtype=float) for p in P], norm=None)[0],
+                   np.array([(D1 * W).sum()], dtype=object), P),
+        lambda: eq('interface[-1] (P, ltr, norm=None)', tn.interface(Y1, P=[np.array(p, dtype=float) for p in P], norm=None, ltr=True)[-1],
+                   np.array([(D1 * W).sum()], dtype=object), P),
+        lambda: eq('interface[0] (sum, norm=None)', tn.interface(Y1, norm=None)[0], np.array([D1.sum()], dtype=object)),
     ]
     for ch in checks:
         try:
